@@ -40,7 +40,7 @@ import rd_common as R
 CID = "C16"
 AREA = "rdalg"
 VO = ["props/C16.vo", "gen/RdTables.vo", "rd/RdBase.vo", "rd/RdModel.vo", "rd/RdAlgModel.vo",
-      "rd/RdAlgSpec.vo", "rd/RdAlgQModel.vo"]
+      "rd/RdAlgSpec.vo", "rd/RdAlgQModel.vo", "rd/RdGenBase.vo", "gen/RdMethodsGen.vo"]
 E_MKFRAC, E_ROUNDTRIP, E_ADDTD, E_MULQ = 30, 31, 32, 33
 S_FIX, S_EQB, S_PRED, S_CANON = 40, 41, 42, 43
 E_CTORQ, E_NORMQ, E_NEGQ, E_ABSQ, E_ADDQ, E_SUBQ = 50, 51, 52, 53, 54, 55
@@ -1231,6 +1231,17 @@ BUDGET = {   # cases per stream
 }
 
 
+def translator_errors():
+    """TRANSLATE-ERROR markers the translator left in the regenerated file"""
+    path = os.path.join(C.COQ, "gen", "RdMethodsGen.v")
+    try:
+        txt = open(path).read()
+    except OSError:
+        return ["coq/gen/RdMethodsGen.v missing"]
+    import re
+    return [m.strip() for m in re.findall(r"\(\* TRANSLATE-ERROR (.*?) \*\)", txt, flags=re.S)]
+
+
 def load_corpus():
     path = os.path.join(C.VERIF, "corpus", "regressions", CID + ".jsonl")
     out = []
@@ -1273,8 +1284,15 @@ def main():
     t0 = time.time()
     verdict = C.Verdict(CID)
     build_err = None
+    build_log_tail = ""
+    terrs_early = []
     try:
-        C.ensure_built([AREA], VO)
+        _ok, blog = C.ensure_built([AREA], VO)
+        errs = [l for l in blog.splitlines() if "Error" in l or "RdGenThm" in l or "TRANSLATE-ERROR" in l]
+        build_log_tail = "\n".join(errs[-25:])
+        # read at once: coq/gen is shared with concurrently running checks that regenerate it
+        terrs_early = sorted(set([l.split("TRANSLATE-ERROR ", 1)[1].strip() for l in blog.splitlines()
+                                  if l.startswith("TRANSLATE-ERROR ")] + translator_errors()))
     except C.BuildError as ex:
         build_err = ex
     if build_err is not None:
@@ -1346,10 +1364,20 @@ def main():
             verdict.violation(payload, concrete=conc)
     if shrinker is not None:
         shrinker.close()
-    if not props["ok"] and not verdict.violations:
-        verdict.violation({"kind": "broken proof obligation", "theorem_file": "coq/props/C16.v",
-                           "theorems": props["theorems"], "discharged": props["discharged"], "input": None,
-                           "log_tail": props["log"][-3000:]}, concrete=False)
+    terrs = terrs_early
+    if not props["ok"]:
+        # reported ALWAYS (also next to concrete failing inputs found by the streams): the regenerated
+        # definitions no longer match the hand model, or the translator rejected the source
+        undis = props["theorems"][props["discharged"]:]
+        gen_broken = [n for n in undis if n.startswith("C16_gen_")]
+        what = ("translator harness/gen_rd_methods.py rejected the source: " + "; ".join(terrs)) if terrs else \
+            ("regenerated definitions (coq/gen/RdMethodsGen.v) no longer equal the hand model: "
+             "coq/rd/RdGenThm.v does not compile" if gen_broken and len(gen_broken) == len(undis) else
+             "props/C16.v does not compile")
+        payload = {"kind": "broken proof obligation: " + what, "theorem_file": "coq/props/C16.v",
+                   "undischarged": undis, "discharged": props["discharged"], "translator_errors": terrs,
+                   "input": None, "log_tail": (build_log_tail + "\n" + props["log"])[-3500:]}
+        verdict.violations.insert(0, (payload, False))
     if not have_oracle and not verdict.violations:
         verdict.violation({"kind": "oracle_rdalg missing (build failed)", "input": None}, concrete=False)
     rc = verdict.finish()
@@ -1374,6 +1402,15 @@ def main():
         "model_vs_impl_disagreements": n_model,
         "law_or_spec_violations_on_impl": n_conc,
         "partial_theorems": partial,
+        "regenerated_from_source": {
+            "file": "coq/gen/RdMethodsGen.v (harness/gen_rd_methods.py, every run)",
+            "methods": "_sign, _fix, _set_months, __neg__, __abs__, __bool__/__nonzero__, __eq__, __hash__, "
+                       "__add__/__sub__ (relativedelta operand), __mul__/__rmul__ (integer factor), "
+                       "_common.weekday.__eq__/__hash__",
+            "translator_errors": terrs,
+            "gen_obligations": [n for n in props["theorems"] if n.startswith("C16_gen_")],
+            "gen_obligations_discharged": [n for n in props["theorems"][:props["discharged"]]
+                                           if n.startswith("C16_gen_")]},
         "differential_only": ["float-valued relative fields (days=1.5 ...) and normalized()'s rounding cascade: "
                               "modelled only as exact rationals (coq/rd/RdAlgQModel.v, compared for dyadic values with "
                               "denominator <= 256); float rounding beyond that is compared with an exact rational "
